@@ -74,6 +74,24 @@ def find_pattern(sess):
             a = node.args[0]
             if isinstance(a, ast.Constant) and isinstance(a.value, str):
                 pats.append(a.value)
+    if not pats:
+        # a pattern compiled / assembled at module level: the module body has been interpreted, so
+        # the global is the real compiled pattern (or the real pattern string)
+        import re as _re
+
+        for node in ast.walk(fv.node):
+            if isinstance(node, ast.Call) and isinstance(node.func, ast.Attribute) and node.func.attr in ("findall", "finditer", "search", "match"):
+                recv = node.func.value
+                cands = []
+                if isinstance(recv, ast.Name):
+                    cands.append(mod.globals.get(recv.id))
+                if node.args and isinstance(node.args[0], ast.Name):
+                    cands.append(mod.globals.get(node.args[0].id))
+                for c in cands:
+                    if isinstance(c, _re.Pattern):
+                        pats.append(c.pattern)
+                    elif isinstance(c, str):
+                        pats.append(c)
     if len(pats) != 1:
         raise C.Unsupported("cannot identify the candidate pattern in parse_cvss_from_text (%d literals)" % len(pats))
     return mod, fv, pats[0]
